@@ -18,10 +18,21 @@ def main():
     mod = importlib.import_module('checks.' + a.pid.lower())
     try:
         rc = mod.run(a.tier)
-    except Exception:
+    except Exception as ex:
+        # the analysis itself broke on this tree (an input shape it was not written for): not a pass.
+        # Reported like an undecided obligation so that the interface contract (exit 1 + VIOLATION line) holds.
         traceback.print_exc()
-        print(f"  internal error in check {a.pid}: treated as a failed check")
-        rc = 2
+        import json, re
+        out_root = os.environ.get('VERIF_OUT_DIR', os.path.dirname(os.path.abspath(__file__)))
+        rep_dir = os.path.join(out_root, 'reports', a.pid)
+        os.makedirs(rep_dir, exist_ok=True)
+        path = os.path.join(rep_dir, 'internal_error.json')
+        with open(path, 'w') as fh:
+            json.dump(dict(property=a.pid, key=f"{a.pid}/internal-error", verdict='UNDECIDED', tier=a.tier,
+                           text=f"the check could not analyse this tree: {type(ex).__name__}: {ex}", detail=dict(traceback=traceback.format_exc()[-3000:])), fh, indent=1)
+        print(f"  undecided (a proof that no longer goes through is not a pass): {a.pid}/internal-error: {type(ex).__name__}: {str(ex)[:200]}")
+        print(f"VIOLATION property={a.pid} replay={os.path.relpath(path, out_root)}")
+        rc = 1
     sys.exit(rc)
 
 if __name__ == '__main__':
